@@ -152,14 +152,14 @@ def _sampled(cells, mod, rem=0):
 
 def _t_cells(tier):
     """traced-level sample: resize/binop/ctor/eq cells with small source widths."""
-    mod_r = 11 if tier == "quick" else 3
+    mod_r = 16 if tier == "quick" else 4
     rz = [dict(c, lvl="T") for c in _resize_cells("thorough", "T") if _w(c["src"]) <= T_MAXW]
     rz = _sampled(rz, mod_r, 1)
     bo = [dict(c) for c in _binop_cells("thorough", "T") if _w(c["a"]) + _w(c["b"]) <= 5]
-    bo = _sampled(bo, 9 if tier == "quick" else 2, 1)
+    bo = _sampled(bo, 13 if tier == "quick" else 2, 1)
     ct = [c for c in _ctor_cells("thorough", "T") if c["from"] in ("Signed", "Unsigned") and c["n"] <= 3
           or c["from"] == "fixed" and _w(c["src"]) <= 3 or c["from"] in ("int", "float") and _w(c["dst"]) <= 4]
-    ct = _sampled(ct, 23 if tier == "quick" else 5, 2)
+    ct = _sampled(ct, 31 if tier == "quick" else 5, 2)
     eq = [c for c in _eq_cells("thorough", "T") if c["with"] == "same_fmt" and _w(c["fmt"]) <= 3]
     eq = _sampled(eq, 3 if tier == "quick" else 1, 0)
     return rz + bo + ct + eq
@@ -258,28 +258,6 @@ def _read(C, obj):
 
 
 _T_SRC = '''
-import cohdl
-from cohdl import std, Entity, Port, Bit
-
-
-def make(fn, items, sink):
-    @cohdl.pyeval
-    def probe(tag, v):
-        sink.append((tag, v))
-
-    class E(Entity):
-        o = Port.output(Bit)
-
-        def architecture(self):
-            @std.concurrent
-            def logic():
-                for it in items:
-                    probe(it, fn(it))
-                self.o <<= Bit(0)
-
-    return E
-
-
 def f_resize(a_list, dl, dr, rs, os_):
     def f(i):
         return a_list[i].resize[dl:dr](rs, os_)
@@ -322,83 +300,7 @@ def _tmod():
     return _T_MOD
 
 
-class _Rej:
-    """marker: cohdl raised for this point"""
-
-    def __init__(self, exc):
-        self.exc = type(exc).__name__ if isinstance(exc, BaseException) else str(exc)
-
-
-def _call(fn, *a):
-    """call into cohdl; result or _Rej."""
-    try:
-        with contextlib.redirect_stdout(io.StringIO()):
-            return fn(*a)
-    except (KeyboardInterrupt, SystemExit, RecursionError, MemoryError):
-        raise
-    except Exception as e:  # noqa: BLE001
-        return _Rej(e)
-
-
-def _trace(fn, idxs):
-    """evaluate fn(i) for i in idxs inside one traced context.  {i: result | _Rej}."""
-    from cv.harness import loader
-
-    m = _tmod()
-    idxs = list(idxs)
-
-    def run(sub):
-        sink = []
-        E = m.make(fn, sub, sink)
-        try:
-            loader.compile_entity(E)
-        except loader.Rejected as r:
-            return None, r.exc_type
-        return dict(sink), None
-
-    got, why = run(idxs)
-    if got is not None:
-        return {i: got[i] for i in idxs}
-    # one point (or all) rejected: a traced design is rejected as a whole, so bisect
-    res = {}
-
-    def bisect(sub, why):
-        if len(sub) == 1:
-            res[sub[0]] = _Rej(why)
-            return
-        h = len(sub) // 2
-        for part in (sub[:h], sub[h:]):
-            g, w = run(part)
-            if g is None:
-                bisect(part, w)
-            else:
-                res.update(g)
-
-    bisect(idxs, why)
-    return res
-
-
-def _evaluate(lvl, fn_p, n, fn_t_factory, p_hint=None):
-    """results for points 0..n-1 at level lvl.  fn_p(i) is the plain call; fn_t_factory() the traced fn."""
-    if lvl == "P":
-        return [_call(fn_p, i) for i in range(n)]
-    if lvl == "T":
-        # points the plain level rejects are (almost always) rejected when traced, too; tracing them one by
-        # one would cost a compile each, so they go into a second batch
-        pres = p_hint if p_hint is not None else [_call(fn_p, i) for i in range(n)]
-        ok = [i for i in range(n) if not isinstance(pres[i], _Rej)]
-        bad = [i for i in range(n) if isinstance(pres[i], _Rej)]
-        fn_t = fn_t_factory()
-        out = {}
-        if ok:
-            out.update(_trace(fn_t, ok))
-        if bad:
-            # only a bounded probe of the P-rejected points (each costs up to log2(n) compiles)
-            out.update(_trace(fn_t, bad[:4]))
-            for i in bad[4:]:
-                out[i] = _Rej("not_probed")
-        return [out[i] for i in range(n)]
-    raise ValueError(lvl)
+from cv.gen.c19_probe import Rej as _Rej, evaluate as _evaluate  # noqa: E402
 
 
 # ----------------------------------------------------------------------------- helpers for signatures
